@@ -9,6 +9,7 @@ import (
 	"fmt"
 	"hash"
 	"io"
+	"math"
 	"net"
 	"strconv"
 	"strings"
@@ -368,11 +369,18 @@ func readMessage(r io.Reader, header *wire.MessageHeader, msg wire.Message) erro
 		rc = r
 	}
 
-	// Read payload.
-	payload := make([]byte, header.Length)
-	if _, err := io.ReadFull(rc, payload); err != nil {
+	// Read payload. The length in the header is not trusted, so the buffer grows as the data is
+	// received rather than being allocated up front from the specified length.
+	if header.Length > math.MaxInt64 {
+		return errors.Wrap(ErrMessageTooLarge, fmt.Sprintf("%s: %d b", header.CommandString(),
+			header.Length))
+	}
+
+	payloadBuffer := &bytes.Buffer{}
+	if _, err := io.CopyN(payloadBuffer, rc, int64(header.Length)); err != nil {
 		return errors.Wrap(err, "read")
 	}
+	payload := payloadBuffer.Bytes()
 
 	// Extended messages don't use a checksum.
 	if checkSum != nil {
